@@ -142,6 +142,66 @@ def gen_op(rnd, s, u):
                 if r < 0.85:
                     return ['preds.append', a, z]
                 return ['succs=', z, list(s['T'][z]['succs']) + [a], 'list']
+    # dependency lists are task lists too: remove_all on them, and views kept across edits
+    if rnd.random() < 0.05:
+        kind = rnd.choice(['preds', 'succs'])
+        linked = [k for k in T if s['T'][k][kind]]
+        tt = rnd.choice(linked) if linked and rnd.random() < 0.85 else t
+        cur = s['T'][tt][kind]
+        r = rnd.random()
+        views = sorted(k for k, v in u.stale.items() if k.startswith('v'))
+        if r < 0.45:
+            fk = rnd.choice(['ids', 'ids', 'all', 'name', 'id', 'raising'])
+            if fk == 'ids':
+                flt = {'kind': 'ids', 'ids': sorted({s['T'][q]['id'] for q in (rnd.sample(cur, min(len(cur), rnd.randint(1, 3))) if cur else [x])}, key=repr),
+                       'as': rnd.choice(['callable', 'kw'])}
+            elif fk == 'name':
+                flt = {'kind': 'name', 'name': rnd.choice(NAMES)}
+            elif fk == 'id':
+                flt = {'kind': 'id', 'id': s['T'][rnd.choice(cur) if cur else x]['id']}
+            elif fk == 'raising':
+                flt = {'kind': 'raising', 'after': rnd.randint(0, 2)}
+            else:
+                flt = {'kind': 'all'}
+            return [kind + '.remove_all', tt, flt]
+        if r < 0.6 or not views:
+            return ['linkview.get', f'v{len(u.stale)}', [kind, tt]]
+        slot = rnd.choice(views)
+        vk, vt = u.stale[slot][0]
+        cur = s['T'][vt][vk]
+        r2 = rnd.random()
+        if r2 < 0.4:
+            return ['linkview.use', slot, [vk + '.remove', vt, rnd.choice(cur) if cur and rnd.random() < 0.8 else x]]
+        if r2 < 0.7:
+            return ['linkview.use', slot, [vk + '.append', vt, x]]
+        return ['linkview.use', slot, [vk + '.remove_all', vt, {'kind': 'ids', 'ids': sorted({s['T'][q]['id'] for q in (cur or [x])}, key=repr)[:2], 'as': 'kw'}]]
+    # two distinct objects with equal ids on the same end of a link (mirror updates must go by object, not by id)
+    if rnd.random() < 0.04:
+        byid = {}
+        for k in T:
+            byid.setdefault(repr(s['T'][k]['id']), []).append(k)
+        twins = [v for v in byid.values() if len(v) >= 2]
+        if twins:
+            # prefer a task that already waits for one twin: add the other twin through either side of the link
+            ready = []
+            for grp in twins:
+                for a in grp:
+                    for b_ in grp:
+                        if a != b_:
+                            for kind, other in (('succs', 'preds'), ('preds', 'succs')):
+                                for v_ in s['T'][a][kind]:
+                                    if v_ in s['T'] and b_ not in s['T'][v_][other]:
+                                        ready.append((kind, a, b_, v_))
+            if ready and rnd.random() < 0.7:
+                kind, a, b_, v_ = rnd.choice(ready)
+                if kind == 'succs':     # v_ waits for a; make it wait for the twin b_ too
+                    return rnd.choice([['rshift', b_, [v_], True], ['succs.append', b_, v_], ['succs=', b_, list(s['T'][b_]['succs']) + [v_], 'list'],
+                                       ['lshift', v_, [b_], True]])
+                return rnd.choice([['lshift', b_, [v_], True], ['preds.append', b_, v_], ['preds=', b_, list(s['T'][b_]['preds']) + [v_], 'list'],
+                                   ['rshift', v_, [b_], True]])
+            a, b_ = rnd.sample(rnd.choice(twins), 2)
+            v_ = rnd.choice(T)
+            return rnd.choice([['rshift', a, [v_], True], ['lshift', v_, [a], True], ['preds.append', v_, a], ['lshift', a, [v_], True]])
     c = rnd.randrange(100)
     if c < 9:
         return ['parent=', t, x if rnd.random() < 0.85 else None]
@@ -262,8 +322,8 @@ def gen_op(rnd, s, u):
             rel[key] = x if key == 'parent' else some(1, 2)
         return ['new', tid, rnd.choice(NAMES), rel]
     # stale facade
-    if u.stale and rnd.random() < 0.7:
-        slot = rnd.choice(sorted(u.stale))
+    if [k for k in u.stale if k.startswith('s')] and rnd.random() < 0.7:
+        slot = rnd.choice(sorted(k for k in u.stale if k.startswith('s')))
         h = tuple(u.stale[slot][0])
         kk = rnd.choice(['append', 'lremove', 'insert', 'move', 'sort', 'reorder'])
         if kk == 'append':
@@ -307,6 +367,8 @@ def nontrivial_state(s):
 def opname(op):
     if op[0] == 'stale.use':
         return 'stale.' + op[2][0]
+    if op[0] == 'linkview.use':
+        return 'view.' + op[2][0]
     return op[0]
 
 
@@ -454,7 +516,7 @@ def run_history(prop, spec, ops, acc, gen=None, tail=True, judge_from=0, layer='
             op = prefix[step]
         else:
             op = gen_op(gen[0], s0, u)
-        if op[0] == 'stale.use' and op[1] not in u.stale:
+        if op[0] in ('stale.use', 'linkview.use') and op[1] not in u.stale:
             continue
         executed.append(op)
         if step < judge_from:
@@ -470,7 +532,7 @@ def run_history(prop, spec, ops, acc, gen=None, tail=True, judge_from=0, layer='
         ac = argclass(s0, op)
         exp = None
         ret_exp = ('any',)
-        if op[0] not in ('new', 'stale.get'):
+        if op[0] not in ('new', 'stale.get', 'linkview.get'):
             try:
                 exp, ret_exp = expected(s0, op)
             except Exception as e:  # a model that cannot follow a hostile descriptor = unspecified
@@ -542,7 +604,7 @@ def run_history(prop, spec, ops, acc, gen=None, tail=True, judge_from=0, layer='
         # Violations of C05/C11 alone (duplicate id, stale owner) leave the structure walkable, so the history goes on
         # unless the property under check is the one that fired.
         broken = any(p == 'C01' for p, _, _ in inv)
-        own_fired = any(p == prop for p, _, _ in inv)
+        own_fired = any(p == prop for p, _, _ in inv) or (broken and prop in ('C01', 'C16'))
 
         # ---- C01
         if prop == 'C01':
@@ -583,7 +645,7 @@ def run_history(prop, spec, ops, acc, gen=None, tail=True, judge_from=0, layer='
             if members and (released or any(v['owner'] is None for v in s1['T'].values())):
                 acc.sig(sh, name, outcome)
         # ---- C15
-        if outcome != 'ok' and op[0] != 'stale.get':
+        if outcome != 'ok' and op[0] not in ('stale.get', 'linkview.get'):
             if prop == 'C15':
                 acc.ev()
                 if lv2 or link or any(s0['R'].values()):
@@ -596,7 +658,7 @@ def run_history(prop, spec, ops, acc, gen=None, tail=True, judge_from=0, layer='
                 viol.append(('C15', f'C15/{name}' + (f':{ac}' if ac else ''),
                              f'{name}({ac}) raised {outcome[6:]} but state changed: {diff(s0, s1)}'))
         # ---- C16
-        if outcome == 'ok' and op[0] != 'stale.get':
+        if outcome == 'ok' and op[0] not in ('stale.get', 'linkview.get'):
             if exp is None:
                 acc.count('unspecified:' + name)
             else:
@@ -610,12 +672,13 @@ def run_history(prop, spec, ops, acc, gen=None, tail=True, judge_from=0, layer='
                         acc.count('deep_state_calls')
                 # owners are part of the documented effect ("releases the tasks left out", "takes its whole subtree along")
                 got = setlevel(s1, owner=True)
-                if not broken and got not in [setlevel(e, owner=True) for e in exp]:
+                # the state before the call was well-formed (a history ends at the first C01 break), so a mismatch is the call's own effect
+                if got not in [setlevel(e, owner=True) for e in exp]:
                     viol.append(('C16', f'C16/{name}' + (f':{ac}' if ac else ''),
                                  f'{name}({ac}) returned but effect differs from the documented one: got-vs-model {diff(exp[0], s1)}'))
-                elif not broken and ret_exp[0] == 'val' and ret is not ret_exp[1] and ret != ret_exp[1]:
+                elif ret_exp[0] == 'val' and ret is not ret_exp[1] and ret != ret_exp[1]:
                     viol.append(('C16', f'C16/{name}/return-value', f'{name} returned {ret!r}, documented {ret_exp[1]!r}'))
-                elif not broken and ret_exp[0] == 'labels' and list(ret or []) != list(ret_exp[1]):
+                elif ret_exp[0] == 'labels' and list(ret or []) != list(ret_exp[1]):
                     viol.append(('C16', f'C16/{name}/return-value', f'{name} returned {ret!r}, model {ret_exp[1]!r}'))
 
         mine = [(p, k, m) for p, k, m in viol if p == prop]
@@ -623,7 +686,7 @@ def run_history(prop, spec, ops, acc, gen=None, tail=True, judge_from=0, layer='
             case = {'kind': 'history', 'spec': spec, 'ops': executed, 'history': history}
             for p, k, m in mine[:2]:
                 acc.violation(k, m, case)
-        if broken or polluted or own_fired:
+        if polluted or own_fired:
             # corrupted state, or an object the workload never got hold of (half-constructed Task of a
             # failed constructor) is wired into the graph: later verdicts would only be consequences
             corrupt = True
